@@ -15,6 +15,7 @@ from vlib.runner import SubProp, Violation
 from checks import c11
 
 PROPERTY_ID = "C02"
+SCALE = (3, 3)   # budget multiplier (quick, thorough) applied to the n=(...) of every generated sub-property
 LEVEL = "exploration"
 RULE = ("valid, non-degenerate annotations x per task (non-degeneracy made executable from the statement: >= 5 well-separated beats, non-empty event/note "
         "lists, >= 1 voiced frame / frequency / in-vocabulary chord, >= 2 frames with a same-label pair, <= n patterns, >= 2 distinct alignment "
